@@ -57,6 +57,9 @@ def feats(spec, sname):
     return {'front': spec['front'], 'atoms': sorted({c['atom'] for c in spec['cvx']}),
             'spell': sorted({c['spell'] for c in spec['cvx']}),
             'special': sorted({s['kind'] for s in spec['special']}),
+            'pw': sorted({('maxof' if c['curv'] == 1 else 'minof') +
+                          ('+num%d' % min(2, sum(1 for p_ in c['pieces'] if p_.get('numeric'))))
+                          for c in spec.get('pw', [])}),
             'vtypes': sorted({b['vtype'] for b in spec['blocks']}),
             'obj': (spec['obj']['sense'] + ('+' + spec['obj']['cvx']['atom']
                                             if spec['obj'].get('cvx') else '') +
